@@ -1,3 +1,4 @@
 import Gomjml.Props.C04
 #print axioms Gomjml.Props.C04.C04_visible_partial
 #print axioms Gomjml.Props.C04.C04_once
+#print axioms Gomjml.Props.C04.C04_visible_all_bodies
